@@ -254,3 +254,123 @@ func zzH_c03_zero_x() {
 	vAssert("zero-x-scalarmult-eq-reference", zzEqPt(mx, my, ex, ey))
 	vReach("end")
 }
+
+// H03-field-edge: the limb arithmetic of the field (Montgomery form, nine 28/29-bit limbs)
+// against big-integer arithmetic mod p on values chosen to stress carries and reductions:
+// 0, 1, p-1, p-2, values around every limb boundary, all-ones patterns.
+//
+//verif:property C03
+//verif:expect-reach end
+//verif:bound operands from a fixed list of 34 field values (0, 1, 2, p-1, p-2, (p-1)/2, 2^k-1, 2^k and 2^k+1 for the limb boundaries k in {29, 57, 86, 114, 143, 171}, 2^255, 2^256 - 2^224 - 1, Gx, Gy, b, n, and four bit patterns reduced mod p); all pairs for Add, Sub, Mul, every value for Square and for multiplication by the small constants 2, 3, 4, 8; bounded concrete execution of the real limb code
+//verif:outside operands outside the list (the symbolic lemma for this arithmetic was tried and withdrawn, DESIGN.md section 9)
+//verif:unwind 400
+func zzH_c03_field_edge() {
+	P256Sm2()
+	p := sm2P256.P
+	var vals []*big.Int
+	add := func(v *big.Int) { vals = append(vals, new(big.Int).Mod(v, p)) }
+	add(big.NewInt(0))
+	add(big.NewInt(1))
+	add(big.NewInt(2))
+	add(new(big.Int).Sub(p, big.NewInt(1)))
+	add(new(big.Int).Sub(p, big.NewInt(2)))
+	add(new(big.Int).Rsh(p, 1))
+	for _, k := range []uint{29, 57, 86, 114, 143, 171} {
+		t := new(big.Int).Lsh(big.NewInt(1), k)
+		add(new(big.Int).Sub(t, big.NewInt(1)))
+		add(t)
+		add(new(big.Int).Add(t, big.NewInt(1)))
+	}
+	add(new(big.Int).Lsh(big.NewInt(1), 255))
+	t := new(big.Int).Lsh(big.NewInt(1), 256)
+	t.Sub(t, new(big.Int).Lsh(big.NewInt(1), 224))
+	add(t.Sub(t, big.NewInt(1)))
+	add(sm2P256.Gx)
+	add(sm2P256.Gy)
+	add(sm2P256.B)
+	add(sm2P256.N)
+	for _, hx := range []string{"aaaaaaaaaaaaaaaaaaaaaaaaaaaaaaaaaaaaaaaaaaaaaaaaaaaaaaaaaaaaaaaa", "5555555555555555555555555555555555555555555555555555555555555555",
+		"ffffffffffffffffffffffffffffffffffffffffffffffffffffffffffffffff", "00000000ffffffff00000000ffffffff00000000ffffffff00000000ffffffff"} {
+		v, _ := new(big.Int).SetString(hx, 16)
+		add(v)
+	}
+	n := len(vals)
+	pick := func(i int) *big.Int { return vals[i] }
+	ai := vChoice("a", n)
+	a := pick(ai)
+	var fa sm2P256FieldElement
+	sm2P256FromBig(&fa, a)
+	vAssert("frombig-tobig-roundtrip", sm2P256ToBig(&fa).Cmp(a) == 0)
+	var sq sm2P256FieldElement
+	sm2P256Square(&sq, &fa)
+	wantSq := new(big.Int).Mul(a, a)
+	wantSq.Mod(wantSq, p)
+	vAssert("square-eq-bigint", sm2P256ToBig(&sq).Cmp(wantSq) == 0)
+	for _, c := range []int{2, 3, 4, 8} {
+		fc := fa
+		sm2P256Scalar(&fc, c)
+		w := new(big.Int).Mul(a, big.NewInt(int64(c)))
+		w.Mod(w, p)
+		vAssert("small-multiple-eq-bigint", sm2P256ToBig(&fc).Cmp(w) == 0)
+	}
+	for bi := 0; bi < n; bi++ {
+		b := pick(bi)
+		var fb, r sm2P256FieldElement
+		sm2P256FromBig(&fb, b)
+		sm2P256Add(&r, &fa, &fb)
+		w := new(big.Int).Add(a, b)
+		vAssert("add-eq-bigint", sm2P256ToBig(&r).Cmp(w.Mod(w, p)) == 0)
+		sm2P256Sub(&r, &fa, &fb)
+		w = new(big.Int).Sub(a, b)
+		vAssert("sub-eq-bigint", sm2P256ToBig(&r).Cmp(w.Mod(w, p)) == 0)
+		sm2P256Mul(&r, &fa, &fb)
+		w = new(big.Int).Mul(a, b)
+		vAssert("mul-eq-bigint", sm2P256ToBig(&r).Cmp(w.Mod(w, p)) == 0)
+	}
+	vReach("end")
+}
+
+// H03-point-pairs: addition and doubling on every ordered pair of a list of points (small
+// multiples of G, their negatives, multiples near the group order, the points with x = 0,
+// infinity) against the affine reference - without scalar multiplication, so the whole table
+// is cheap.
+//
+//verif:property C03
+//verif:expect-reach end
+//verif:bound points [k]G for k in {1,2,3,4,5,6,7,8,n-1,n-2,n-3,n-4}, the two points with x = 0 and infinity (0,0): all 15 x 15 ordered pairs for Add, every point for Double and IsOnCurve; bounded concrete execution of the real point arithmetic
+//verif:outside points outside the list
+//verif:unwind 700
+func zzH_c03_point_pairs() {
+	c := P256Sm2()
+	type pt struct{ x, y *big.Int }
+	var pts []pt
+	for _, k := range []int64{1, 2, 3, 4, 5, 6, 7, 8} {
+		x, y := zzRefMul(big.NewInt(k))
+		pts = append(pts, pt{x, y})
+	}
+	for _, d := range []int64{1, 2, 3, 4} {
+		x, y := zzRefMul(new(big.Int).Sub(sm2P256.N, big.NewInt(d)))
+		pts = append(pts, pt{x, y})
+	}
+	y0, _ := new(big.Int).SetString("fd4511e81736a60f07e88a83d6cf5a167fae6d1a9c9330e76e232e00f5cdc154", 16)
+	pts = append(pts, pt{new(big.Int), y0}, pt{new(big.Int), new(big.Int).Sub(sm2P256.P, y0)}, pt{new(big.Int), new(big.Int)})
+	i := vChoice("p", len(pts))
+	P := pts[i]
+	inf := P.x.Sign() == 0 && P.y.Sign() == 0
+	if !inf {
+		vAssert("listed-point-on-curve", c.IsOnCurve(P.x, P.y))
+	}
+	dx, dy := zzRefAdd(P.x, P.y, P.x, P.y)
+	gx, gy := c.Double(P.x, P.y)
+	vAssert("double-eq-reference", zzEqPt(gx, gy, dx, dy))
+	for j := range pts {
+		Q := pts[j]
+		wx, wy := zzRefAdd(P.x, P.y, Q.x, Q.y)
+		ax, ay := c.Add(P.x, P.y, Q.x, Q.y)
+		vAssert("add-eq-reference", zzEqPt(ax, ay, wx, wy))
+		if wx.Sign() != 0 || wy.Sign() != 0 {
+			vAssert("sum-on-curve", c.IsOnCurve(ax, ay))
+		}
+	}
+	vReach("end")
+}
